@@ -337,6 +337,7 @@ static std::vector<u16> IrqMain(bool write_disable_first) {
 static const std::vector<u16> kIrqHandlerEcho = {0x1C02, 0x1885, 0x1803, 0x45C0};            // read CMD0 ; ack ICU ; write REPLY0 ; reti
 static const std::vector<u16> kSemMain = {0x5E01, 0x80D2, 0x5E02, 0x80D0, 0x5E03, 0x80CC, 0x5E05, 0x8202, 0x5E04, 0x4000,
                                           0x5E0D, 0x0800, 0x0037, 0x0180, 0x57F0};
+static const std::vector<u16> kSemHandler42 = {0x1C01, 0x1802, 0x1885, 0x5E00, 0x0004, 0x1803, 0x5E00, 0x0002, 0x1803, 0x45C0}; // as below, SET_SEM=4 then SET_SEM=2
 static const std::vector<u16> kSemHandler = {0x1C01, 0x1802, 0x1885, 0x5E00, 0x0002, 0x1803, 0x45C0}; // r0=GET_SEM ; ACK=r0 ; ack ICU ; r0=2 ; SET_SEM=r0 ; reti
 
 inline void HostSend(Machine& m, Obs& o, u8 ch, u16 v) {
@@ -514,6 +515,79 @@ inline std::vector<Scenario> Scenarios() {
                      o.host_done = true;
                  },
                  [](Machine&, const Obs& o) { return InOrderOracle(o); }, 140, true});
+    // S6: the host runs ahead of the interrupt handler: it sends again as soon as the mailbox has been emptied, i.e. possibly while the
+    // DSP is still inside the handler of the previous send (between reading the mailbox and acknowledging the interrupt controller)
+    v.push_back({"S6-irq-send-while-handling", {{0x0000, {0x4180, 0x0100}}, {0x0006, kIrqHandlerEcho}, {0x0100, IrqMain(false)}}, route_irq14_to_int0,
+                 [](Machine& m, Obs& o) {
+                     HostSend(m, o, 0, 0x0DDD);
+                     bool empty = false;
+                     for (int i = 0; i < 400 && !empty; ++i) {
+                         HostPoint(13);
+                         empty = m.teakra->SendDataIsEmpty(0);
+                         if (!empty)
+                             HostYield();
+                     }
+                     if (!empty)
+                         return;
+                     HostSend(m, o, 0, 0x0EEE);
+                     for (int i = 0; i < 3; ++i) {
+                         if (!HostWaitReply(m, 0))
+                             return;
+                         if (HostRecv(m, o, 0) == 0x0EEE) {
+                             o.host_done = true;
+                             break;
+                         }
+                     }
+                 },
+                 [](Machine&, const Obs& o) {
+                     std::string e = InOrderOracle(o);
+                     if (!e.empty())
+                         return e;
+                     for (size_t i = 0; i < o.send_step.size(); ++i) {
+                         bool ok = false;
+                         for (int d : o.delivery_step)
+                             ok |= d >= o.send_step[i];
+                         if (!ok)
+                             return Fmt("send #%zu was not followed by any interrupt delivery on the DSP", i);
+                     }
+                     return std::string();
+                 },
+                 160, true});
+    // S7: a semaphore bit raised while the host masks it, another one raised and acknowledged, then the mask lifted: the still-set bit
+    // must now be signalled (host callback) - the signal is a function of (semaphore AND NOT mask) at every moment
+    v.push_back({"S7-semaphore-unmask-after-clear", {{0x0000, {0x4180, 0x0100}}, {0x0006, kSemHandler42}, {0x0100, kSemMain}}, route_irq14_to_int0,
+                 [](Machine& m, Obs& o) {
+                     HostPoint(40);
+                     m.teakra->MaskSemaphore(0x0004);
+                     HostPoint(41);
+                     o.send_step.push_back(Now());
+                     m.teakra->SetSemaphore(0x0001);
+                     for (int i = 0; i < 300; ++i) {
+                         HostPoint(42);
+                         u16 s = m.teakra->GetSemaphore();
+                         if ((s & 6) == 6) {
+                             HostPoint(43);
+                             m.teakra->ClearSemaphore(0x0002);
+                             int before = g_obs.sem_callbacks;
+                             HostPoint(44);
+                             m.teakra->MaskSemaphore(0x0000);
+                             o.last_semaphore_seen = (u16)(g_obs.sem_callbacks - before);
+                             o.host_done = true;
+                             break;
+                         }
+                         HostYield();
+                     }
+                 },
+                 [](Machine& m, const Obs& o) {
+                     if (!o.host_done)
+                         return std::string("the DSP's two semaphore bits were never observed by the host");
+                     if (o.last_semaphore_seen < 1)
+                         return std::string("lifting the mask from a semaphore bit that is still set did not signal the host");
+                     if ((m.teakra->GetSemaphore() & 6) != 4)
+                         return std::string("after acknowledging bit 1 the semaphore does not read bit 2 only");
+                     return std::string();
+                 },
+                 160, true});
     return v;
 }
 
@@ -784,7 +858,7 @@ inline void Run(const verif::Args& args, Result& res) {
                 blk.capped = completed < bound && local.violations.empty();
             },
             res);
-    res.rule = "six two-thread harnesses (host thread issuing SendData/RecvData/ready polls/Set/Get/Clear/MaskSemaphore, with and without re-entrant "
+    res.rule = "eight two-thread harnesses (host thread issuing SendData/RecvData/ready polls/Set/Get/Clear/MaskSemaphore, with and without re-entrant "
                "callbacks; DSP thread executing a real polling or interrupt-driven echo / semaphore program, one Run(1) per step) are run on the real code under a "
                "deterministic scheduler that owns every pthread_mutex_lock/unlock (ownership modelled, recursive mutexes recognised), every access to the "
                "interpreter's interrupt latches, every API-call and instruction boundary and a yield in every poll loop; every schedule with at most the stated "
